@@ -1672,3 +1672,17 @@ def m_copy_from_slice(it, argv, text):
     base = it.load(dst.addr)
     it.store(dst.addr, VecV(base.e[:dst.start] + tuple(src) + base.e[dst.end:]))
     return UNIT
+
+
+@model('slice::strip_suffix', 'slice::strip_prefix')
+def m_slice_strip(it, argv, text):
+    """<[T]>::strip_suffix / strip_prefix (round 6): the remaining elements by value (byte strings stay byte strings)"""
+    src = it.deref_all(argv[0])
+    a, b = _seq_vals(it, argv[0]), _seq_vals(it, argv[1])
+    if len(b) > len(a):
+        return NONE
+    suffix = text.split('::<')[0].rsplit('::', 1)[-1] == 'strip_suffix' or 'strip_suffix' in text
+    part, rest = (a[len(a) - len(b):], a[:len(a) - len(b)]) if suffix else (a[:len(b)], a[len(b):])
+    if not all(value_eq(it, x, y) for x, y in zip(part, b)):
+        return NONE
+    return some(StrV(tuple(rest)) if isinstance(src, StrV) else VecV(tuple(rest)))
